@@ -1138,7 +1138,11 @@ def geometric_loss(x, p):
 	# Calculate E[X].
 	E = 1.0 / p
 
-	n = ((1 - p) / p) * (1 - p)**(x-1)
+	if x < 0:
+		# x is below the support, so (X - x)^+ = X - x. (The closed form below is only valid for x >= 0.)
+		n = E - x
+	else:
+		n = ((1 - p) / p) * (1 - p)**(x-1)
 	n_bar = x - E + n
 
 	return n, n_bar
@@ -1216,7 +1220,11 @@ def geometric_second_loss(x, p):
 	E = 1.0 / p
 	V = (1.0 - p) / p**2
 
-	n2 = ((1 - p) / p)**2 * (1 - p)**(x - 1)
+	if x < 0:
+		# x is below the support, so the complementary loss is 0. (The closed form below is only valid for x >= 0.)
+		n2 = 0.5 * ((x - E)**2 + (x - E) + V)
+	else:
+		n2 = ((1 - p) / p)**2 * (1 - p)**(x - 1)
 	n2_bar = 0.5 * ((x - E)**2 + (x - E) + V) - n2
 
 	return n2, n2_bar
